@@ -133,9 +133,82 @@ def r05b(ctx, P):
     ctx.floor(rid, n, 1, "reuse of the cached live-docs map in commit")
 
 
+SUBSET_ADAPTERS = ("::filter", "::filter_map", "::take", "::take_while", "::skip", "::skip_while", "::step_by", "::find",
+                   "::find_map", "::min", "::min_by", "::min_by_key", "::last", "::first", "::nth", "::retain", "::position")
+
+
+def r05c(ctx, P):
+    rid = "R05.c"
+    ctx.rule(rid, "FRESHNESS of the staleness token: R05.b makes the generation comparison the only guard for reusing a handle's cached "
+                  "live-docs map, so every published segment must carry a generation strictly above every generation already in the "
+                  "manifest. At every SegmentWriter::write_segment* call in a publisher (commit, compact) the generation argument is "
+                  "1 + Iterator::max over an iteration of Manifest.segments mapped to `.generation`, with no subset-forming adapter "
+                  "(filter/take/skip/...) and no other container in its backward slice")
+    n = 0
+    for path in (N.W + "::commit", "searchlite_core::index::Index::compact"):
+        f = P.fn(path)
+        if not ctx.anchor(rid, f, path):
+            continue
+        ctx.saw(f)
+        sl = Slice(f, through_all_calls=True)
+        for b, t in f.calls():
+            cal = callee_of(t)
+            if not (cal.startswith("searchlite_core::index::segment::SegmentWriter") and "::write_segment" in cal):
+                continue
+            n += 1
+            gen_arg = t["args"][-1]
+            srcs = sl.sources(gen_arg)
+            callees = {callee_of(x[2]) for x in srcs if x[0] == "call"}
+            has_max = any(c.endswith("Iterator::max") for c in callees)
+            plus_one = any(x[0] == "binop" and x[1] in ("Add", "AddWithOverflow") for x in srcs) and \
+                any(x[0] == "const" and str(x[1].get("int", x[1].get("txt", ""))).startswith("1") for x in srcs)
+            seg_fields = [x for x in srcs if x[0] == "field" and "segments" in x[2]]
+            owners = {e.get("of") for x in seg_fields for e in x[3]["p"] if isinstance(e, dict) and e.get("f") == "segments"}
+            from_manifest = owners == {"searchlite_core::index::manifest::Manifest"}
+            subset = sorted(c for c in callees if any(c.endswith(a) or (a + "::") in c for a in SUBSET_ADAPTERS))
+            # the mapped closure projects `.generation`
+            proj = False
+            for x in srcs:
+                if x[0] == "agg" and x[3].get("closure"):
+                    g = P.fn(x[3]["closure"])
+                    if g is not None and any("generation" in place_fields(pl) for pl in _read_places(g)):
+                        proj = True
+            ok = has_max and plus_one and from_manifest and not subset and proj
+            why = []
+            if not has_max:
+                why.append("no Iterator::max in its slice")
+            if not plus_one:
+                why.append("not incremented by 1")
+            if not from_manifest:
+                why.append("iterates %s instead of only Manifest.segments" % (sorted(o for o in owners if o) or "nothing"))
+            if subset:
+                why.append("considers only a subset of the segments (%s)" % ", ".join(_short(c) for c in subset))
+            if not proj:
+                why.append("the mapped closure does not read `.generation`")
+            ctx.ob(rid, "%s:%s:published-generation-fresh" % (rid, f.short), ok,
+                   "the generation given to %s is 1 + max over all manifest segments" % _short(cal) if ok else
+                   "the generation given to %s at %s %s: a published segment can reuse a generation, so a writer handle that cached its "
+                   "live-docs map before the publish passes the staleness comparison and keeps the stale map" % (
+                       _short(cal), Site(f, b).loc(), "; ".join(why)), Site(f, b).loc())
+    ctx.floor(rid, n, 2, "write_segment* calls in commit and compact")
+
+
+def _read_places(g):
+    for b, i, s in g.stmts():
+        if s["k"] == "assign":
+            rv = s["rv"]
+            if rv["k"] in ("ref", "discr"):
+                yield rv["place"]
+            elif rv["k"] in ("use", "cast"):
+                pl = op_place(rv["a"])
+                if pl:
+                    yield pl
+
+
 def run(ctx, progs):
     P = progs.get("default")
     r05a(ctx, P)
     r05b(ctx, P)
+    r05c(ctx, P)
     ctx.assumptions += ["parking_lot Mutex/RwLock provide mutual exclusion; a guard protects until it is dropped or moved",
                         "all writer handles of one index share one InnerIndex (Arc), hence one writer_lock"]
